@@ -821,6 +821,11 @@ func c09r8(c *Check) {
 				if calleeName(cc) == "os.Rename" && pathOrigin(cc.Args[0], 0) == "metaDataFileName" {
 					return
 				}
+				// cutting the write segment back to the persisted write position removes nothing the
+				// metadata refers to (C08.R9 requires it)
+				if ok, _ := truncatesWriteTail(c, cc); ok {
+					return
+				}
 				bad = fmt.Sprintf("%s in %s (%s)", calleeName(cc), FuncName(f), strings.Join(cg.Chain(via, f), " → "))
 				at = in
 			})
